@@ -230,3 +230,26 @@ package pkg
 //@   serves C04
 //@   nopanic
 //@   ensures r == (isSignedK(strip(val).kind) || isUnsignedK(strip(val).kind) || isFloatK(strip(val).kind))
+
+// ---- clone table (C09) ----
+//@ func NewCloneTable() (t)
+//@   serves C09
+//@   opt alloc=1
+//@   nopanic
+//@   modifies alloc, map[string]*CloneRecord, fresh CloneTable.Records
+//@   ensures fresh(t) && t.Records != nil && (forall id string :: !has(t.Records, id))
+//@ func (tab *CloneTable) IsCloned(astID) (r)
+//@   serves C09
+//@   requires tab != nil
+//@   nopanic
+//@   ensures r == has(tab.Records, astID)
+//@ func (tab *CloneTable) MarkCloned(originAst, cloneAst, origin, clone) ()
+//@   serves C09
+//@   opt alloc=1
+//@   requires tab != nil && tab.Records != nil
+//@   nopanic
+//@   modifies map[string]*CloneRecord, fresh CloneRecord.*, alloc
+//@   ensures has(tab.Records, originAst) && tab.Records[originAst] != nil && fresh(tab.Records[originAst]) && tab.Records[originAst].CloneInstance == clone && tab.Records[originAst].OriginInstance == origin
+//@   ensures forall k string :: k != originAst ==> has(tab.Records, k) == old(has(tab.Records, k)) && tab.Records[k] == old(tab.Records[k])
+//@   ensures forall r *CloneRecord :: old(allocated(r)) ==> r.CloneInstance == old(r.CloneInstance) && r.OriginInstance == old(r.OriginInstance)
+//@   ensures forall p Ref :: old(allocated(p)) ==> allocated(p)
